@@ -40,6 +40,10 @@ checks = [
      "Seeded runs with recording adapters and transitions: the stage list as run must partition the iterations, parameters must be frozen in the main stage and equal to what the last stage with >=1 update finalized, empty stages must change nothing; plus direct drive of the stagers over seeded settings.",
      "Parameters observed are step size, metric (dense fingerprint) and the random-walk scale of the generic sampler; other transition attributes are not watched.",
      "deterministic simulation with recording adapters; stage/parameter timeline invariants", "E2 procsim/chainsim", "DESIGN.md section 5 C16"),
+ chk("C17", "exploration",
+     "Real adapters are driven directly with seeded position / acceptance histories (partitions among chains, permuted merge order, large offsets, all reducers and regularisation settings) and checked after every update and after finalize against batch formulas written from the documentation; in addition the adapter events of simulated multi-chain sample_chains runs are re-derived from the logged positions and acceptance statistics, including the log-2 crossing of the initial step size and the momentum refresh under the new metric.",
+     "Reference formulas are the harness's reading of the docstrings and cited papers; tolerances scale with offset/spread as for any backward-stable algorithm (calibrated on the pinned tree).",
+     "operation-history simulation against a batch reference model; adapter event log of deterministic simulated runs", "E4 histsim + E2 chainsim", "DESIGN.md section 5 C17"),
 ]
 
 m = {
